@@ -371,19 +371,70 @@ impl TestFunction {
                     "Invalid argument for the function `{}`: expected a node, got a filter",
                     name
                 )))
+            } else if a.is_declared_fn() {
+                Err(JsonPathError::InvalidJsonPath(format!(
+                    "Invalid argument for the function `{}`: expected a node, got a function result",
+                    name
+                )))
             } else {
                 Ok(a)
             }
         }
 
+        /// A ValueType parameter takes a literal, a singular query
+        /// or a function expression with the declared result type ValueType (RFC 9535, 2.4.3)
+        fn with_value_type_validation<'a>(
+            a: &'a FnArg,
+            name: &str,
+        ) -> Result<&'a FnArg, JsonPathError> {
+            let well_typed = match a {
+                FnArg::Literal(_) => true,
+                FnArg::Filter(_) => false,
+                FnArg::Test(test) => match test.as_ref() {
+                    Test::RelQuery(segments) => is_singular(segments),
+                    Test::AbsQuery(query) => is_singular(&query.segments),
+                    Test::Function(tf) => {
+                        tf.is_comparable() || matches!(**tf, TestFunction::Custom(_, _))
+                    }
+                },
+            };
+            if well_typed {
+                Ok(a)
+            } else {
+                Err(JsonPathError::InvalidJsonPath(format!(
+                    "Invalid argument for the function `{}`: expected a value (a literal, a singular query or a function returning a value)",
+                    name
+                )))
+            }
+        }
+
+        fn is_singular(segments: &[Segment]) -> bool {
+            segments.iter().all(|s| {
+                matches!(
+                    s,
+                    Segment::Selector(Selector::Name(_)) | Segment::Selector(Selector::Index(_))
+                )
+            })
+        }
+
         match (name, args.as_slice()) {
-            ("length", [a]) => Ok(TestFunction::Length(Box::new(a.clone()))),
-            ("value", [a]) => Ok(TestFunction::Value(a.clone())),
+            ("length", [a]) => Ok(TestFunction::Length(Box::new(
+                with_value_type_validation(a, name)?.clone(),
+            ))),
+            ("value", [a]) => Ok(TestFunction::Value(
+                with_node_type_validation(a, name)?.clone(),
+            )),
             ("count", [a]) => Ok(TestFunction::Count(
                 with_node_type_validation(a, name)?.clone(),
             )),
-            ("search", [a, b]) => Ok(TestFunction::Search(a.clone(), b.clone())),
-            ("match", [a, b]) => Ok(TestFunction::Match(a.clone(), b.clone())),
+            ("search", [a, b]) => Ok(TestFunction::Search(
+                with_value_type_validation(a, name)?.clone(),
+                with_value_type_validation(b, name)?.clone(),
+            )),
+            ("match", [a, b]) => Ok(TestFunction::Match(
+                with_value_type_validation(a, name)?.clone(),
+                with_value_type_validation(b, name)?.clone(),
+            )),
             ("length" | "value" | "count" | "match" | "search", args) => {
                 Err(JsonPathError::InvalidJsonPath(format!(
                     "Invalid number of arguments for the function `{}`: got {}",
@@ -442,6 +493,16 @@ impl FnArg {
     }
     pub fn is_filter(&self) -> bool {
         matches!(self, FnArg::Filter(_))
+    }
+    /// The argument is a call of one of the RFC 9535 functions (none of them returns NodesType).
+    pub fn is_declared_fn(&self) -> bool {
+        match self {
+            FnArg::Test(test) => match test.as_ref() {
+                Test::Function(tf) => !matches!(**tf, TestFunction::Custom(_, _)),
+                _ => false,
+            },
+            _ => false,
+        }
     }
 }
 
